@@ -412,13 +412,16 @@ def rows_rung(out):
     """[(row_number, [bells...], first_wait_time)] in the order the Bot began them (a new entry
     whenever a wait for place 0 is logged)."""
     rows = []
+    last_place = None
     for it in out.get("trace", []):
         if it[1] == "r_wait":
             bell, row, place = it[3], it[4], it[5]
-            if place == 0:
+            # a new entry also when the row number changes or the place does not advance (a row that is not begun at
+            # its first place must not be glued to the one before it)
+            if place == 0 or not rows or rows[-1][0] != row or last_place is None or place <= last_place:
                 rows.append([row, [], Fraction(it[0])])
-            if rows:
-                rows[-1][1].append(bell)
+            rows[-1][1].append(bell)
+            last_place = place
     return rows
 
 
@@ -710,8 +713,12 @@ class StartStopSuite(SystemSuite):
         if "trace" not in out:
             return None
         n = case["oracle"]["n"]
-        for (r, bells, _t) in rows_rung(out):
-            if len(bells) == n and sorted(bells) != list(range(1, n + 1)):
+        rows = rows_rung(out)
+        for i, (r, bells, _t) in enumerate(rows):
+            cut_short = i == len(rows) - 1 or rows[i + 1][0] == 0      # the session ended / a new Look to interrupted it
+            if cut_short and len(bells) < n and len(set(bells)) == len(bells):
+                continue
+            if sorted(bells) != list(range(1, n + 1)):
                 return f"row {r} = {bells} is not a complete row of the tower"
         return None
 
@@ -1195,11 +1202,12 @@ def comp_payload(rng):
     stage = rng.randint(4, 12)
     rounds = gens.BELL_NAMES[:stage]
     n0 = rng.choice([1, 1, 2, 2, 3])
-    early_pool = ["", "", "Go Original", "Single", "Bob", "Go Erin; Single", "Stand", " Bob ;Stand"]
+    early_pool = ["", "", "Go Original", "Single", "Bob", "Go Erin; Single", "Stand", " Bob ;Stand", "Bob; Stand", " Stand"]
     rows = [[rounds, rng.choice(early_pool), 0] for _ in range(n0)]
     cur = list(rounds)
     nrows = rng.randint(1, 14)
-    pool = ["", "", "", "Bob", "Single", "Go Plain Bob", "Bob; Single", "Stand", "Plain Bob;Stand", "s"]
+    pool = ["", "", "", "Bob", "Single", "Go Plain Bob", "Bob; Single", "Stand", "Plain Bob;Stand", "s", "Bob; Stand", "Stand ; Single",
+            "Stand "]
     for i in range(nrows):
         for k in range(i % 2, stage - 1, 2):
             cur[k], cur[k + 1] = cur[k + 1], cur[k]
@@ -1207,7 +1215,7 @@ def comp_payload(rng):
             cur[0], cur[1] = cur[1], cur[0]
         rows.append(["".join(cur), rng.choice(pool), rng.randint(0, 7)])
     if rng.random() < 0.6:
-        rows.append([rounds, rng.choice(["That's all", "That's all", "", "That's all;Stand"]), 0])
+        rows.append([rounds, rng.choice(["That's all", "That's all", "", "That's all;Stand", "That's all; Stand"]), 0])
     return {"stage": stage, "title": "T", "rows": rows}
 
 
@@ -1287,6 +1295,14 @@ class CompositionSuite(SystemSuite):
         return self.one_touch(case, [x for x in got if x[2] > t2], [x for x in made if x[0] > t2],
                               [x for x in st if x[0] > t2], case["oracle"]["go2"],
                               f"second touch of the same composition (Look to again after row {relook[0]}): ")
+
+    def oracle_C05(self, case, out):
+        """the same composition rung again after a new Look to (also after it had been rung right through to its end
+        and beyond): the second touch is the composition from its first row, like a fresh Wheatley's"""
+        if case["oracle"].get("relook") is None:
+            return None
+        msg = self.oracle_C16(case, out)
+        return msg if msg and msg.startswith("second touch") else None
 
     def one_touch(self, case, got, made, st, go, label):
         p = case["gen"]["payload"]
@@ -1443,6 +1459,7 @@ def wait_session(rng, tier):
         evs.append(ev(Fraction(5, 100) + Fraction(b, 10000), "assign", b, 11))
     evs.append(ev(look_to, "call", "Look to"))
     shift = Fraction(0)          # humans follow the band: later blows move with earlier hold-ups (roughly)
+    long_done = False
     for r, row in enumerate(rows):
         for p, bell in enumerate(row):
             if bell not in humans:
@@ -1454,6 +1471,9 @@ def wait_session(rng, tier):
                 t += iv * Fraction(rng.randint(-20, 20), 100)                  # roughly on time
             elif k < 0.75:
                 late = Fraction(rng.choice([3, 13, 250, 900, 2500]), 1000)     # late by ms .. seconds
+                if not long_done and rng.random() < 0.04:
+                    late = Fraction(rng.choice([330, 400]))                     # ... or by minutes (once per session)
+                    long_done = True
                 t += late
                 shift += late
             elif k < 0.85:
@@ -1469,9 +1489,12 @@ def wait_session(rng, tier):
     horizon = start + shift + iv * (nrows * n + nrows // 2) + Fraction(1, 3000)
     rh = {"kind": "wait", "inertia": rng.choice([0.5, 1.0, 0.0]), "peal_speed": peal, "gap": gap, "max": 15,
           "initial_inertia": 0}
-    return {"gen": spec, "udi": True, "stop_at_rounds": False, "call_comps": True, "name": None, "instance": None,
-            "rhythm": rh, "delta": fstr(rng.choice([0, Fraction(1, 1000)])), "horizon": fstr(horizon),
-            "events": sorted_events(evs), "oracle": {"humans": sorted(humans), "n": n}}
+    sc = {"gen": spec, "udi": True, "stop_at_rounds": False, "call_comps": True, "name": None, "instance": None,
+          "rhythm": rh, "delta": fstr(rng.choice([0, Fraction(1, 1000)])), "horizon": fstr(horizon),
+          "events": sorted_events(evs), "oracle": {"humans": sorted(humans), "n": n}}
+    if long_done:
+        sc["oracle_only"] = True       # tens of thousands of polls: judged on the implementation's trace only
+    return sc
 
 
 def wait_session_two(rng):
@@ -1530,11 +1553,11 @@ class WaitSuite(SystemSuite):
             yield wait_session_two(rng)
 
     def to_coq(self, case, out):
-        c = {k: v for k, v in case.items() if k != "oracle"}
+        c = {k: v for k, v in case.items() if k not in ("oracle", "oracle_only")}
         return scenario_coq(c, out, self.fuel, self.tol, self.min_margin)
 
     def run_impl(self, case):
-        c = {k: v for k, v in case.items() if k != "oracle"}
+        c = {k: v for k, v in case.items() if k not in ("oracle", "oracle_only")}
         return sim.run_scenario(c, gens.build_impl_generator)
 
     def oracle_C09(self, case, out):
@@ -1686,9 +1709,58 @@ class ServerSuite(SystemSuite):
             sc["oracle_only"] = True
         return sc
 
+    def long_touch(self, rng):
+        """One touch that lasts longer than the 300 s inactivity limit (stop-at-rounds switched off, Stand next near the
+        end), then idleness: the 300 s are counted from the END of the ringing."""
+        n = 4
+        dur = Fraction(1, 8)
+        evs = [ev(0, "global", [True] * n), ev(Fraction(11, 1000), "user_entered", 1, "Wheatley")]
+        for b in range(1, n + 1):
+            evs.append(ev(Fraction(12, 1000) + Fraction(b, 100000), "assign", b, 1))
+        evs.append(ev(Fraction(81, 1000), "row_gen", {"type": "method", "stage": 4, "notation": "x1"}))
+        evs.append(ev(Fraction(91, 1000), "setting", [["stop_at_rounds", False]]))
+        look = Fraction(1211, 10000)
+        evs.append(ev(look, "call", "Look to"))
+        sch = Schedule(look, dur)
+        nrows = rng.choice([570, 600])
+        evs.append(ev(sch.wait((nrows - 2) * n + 1, Fraction(1, 3)), "call", "Stand next"))
+        t = sch.end_of(nrows * n)
+        idle = rng.choice([Fraction(29990, 100), Fraction(30040, 100)])
+        horizon = t + idle
+        evs = [[fstr(Fraction(tt) + (Fraction(rng.randint(1, 999), 10 ** 6) if e[0] not in ("global",) else 0)), e] for tt, e in evs]
+        lk = [tt for tt, e in evs if e[0] == "call" and e[1] == "Look to"][0]
+        return {"gen": {"kind": "placeholder"}, "udi": True, "stop_at_rounds": True, "call_comps": True,
+                "name": "Wheatley", "instance": rng.randint(1, 99),
+                "rhythm": {"kind": "scripted", "durs": [fstr(dur)] * (nrows * n + 50)}, "delta": "0",
+                "horizon": fstr(horizon + Fraction(1, 3000)), "events": sorted_events(evs), "oracle_only": True,
+                "oracle": {"n": n, "touches": [{"look": lk, "n": n}], "selections": [[evs[5][0], 4]], "mode": "idle",
+                           "idle_from": fstr(t), "long": True}}
+
+    def __init__(self, light=False):
+        self.light = light
+        if light:
+            self.name = "server_mode_light"
+
     def scenarios(self, rng, tier):
-        for _ in range(200 if tier == "quick" else 2000):
+        for _ in range((30 if self.light else 200) if tier == "quick" else (300 if self.light else 2000)):
             yield self.session(rng)
+        for _ in range(2 if tier == "quick" else 10):
+            yield self.long_touch(rng)
+
+    def oracle_C10(self, case, out):
+        """the main loop ends only by the inactivity exit - 300 s after ringing STOPPED - never by an exception"""
+        if "trace" not in out:
+            return None
+        if out["outcome"][0] == "crashed":
+            return f"Wheatley's main loop was killed by {out['outcome'][2]} at {out['outcome'][3]}"
+        if out["outcome"][0] == "exited":
+            end = Fraction(out["end"])
+            idle_from = max([Fraction(it[0]) for it in out["trace"] if it[1] == "is_ringing" and it[2] is False] or [D01])
+            if end <= idle_from + 300:
+                return (f"Wheatley's main loop returned {float(end - idle_from):.2f}s after ringing stopped "
+                        f"(the touch had lasted longer than the inactivity limit)" if case["oracle"].get("long") else
+                        f"Wheatley's main loop returned after only {float(end - idle_from):.2f}s of inactivity")
+        return None
 
     def to_coq(self, case, out):
         c = {k: v for k, v in case.items() if k not in ("oracle", "oracle_only")}
